@@ -104,12 +104,19 @@ def gen_calls(rng, spec, n=14):
 
 
 def mechs(case, tgt, args, kwds):
-    """witness-derived classification of the recorded weakness of klepto.validate: for a partial
-    of a *bound* callable (bound method / callable instance) with positionally fixed arguments,
-    klepto's signature() pairs the fixed values with the parameter list that still contains
-    'self', i.e. shifted by one, so clashes between fixed positionals and keywords go unnoticed"""
+    """witness-derived classification of the recorded weakness of klepto.validate: for a partial of a
+    *bound* callable (bound method / callable instance) with positionally fixed arguments, klepto's
+    signature() pairs the fixed values with a parameter list that still contains 'self' (shifted by
+    one), so a clash between a positionally fixed parameter and a keyword goes unnoticed.  The
+    witness must show exactly that: Python rejects the call with "multiple values for argument"."""
     if case['kind'] in ('method', 'instance') and tgt.pa:
-        return ['validate-partial-of-bound-callable-offset']
+        try:
+            tgt.obj(*args, **kwds)
+        except TypeError as e:
+            if 'multiple values' in str(e):
+                return ['validate-partial-of-bound-callable-offset']
+        except Exception:
+            pass
     return []
 
 
